@@ -9,6 +9,7 @@ import (
 	"os"
 	"runtime"
 	"strings"
+	"sync"
 	"sync/atomic"
 	"time"
 
@@ -37,6 +38,8 @@ const (
 	ImplLiveHeap  = 3
 	ImplParkWheel = 4 // worker parked on its output while a cancel arrives (see Parked)
 	ImplParkHeap  = 5
+	ImplShutWheel = 6 // API calls around and after Shutdown (see ShutdownCase)
+	ImplShutHeap  = 7
 )
 
 // MaxTicksPerStep bounds the work of one worker tick step of the wheel.
@@ -72,13 +75,14 @@ type exec struct {
 	blockedDel []pendingCall
 }
 
-// blockedInSend reports whether some goroutine sits in a channel send below one of the
+// blockedInSend reports whether some goroutine sits in a channel send (plain, or a select
+// on the send and the done channel) below one of the
 // timer API calls (evidence for the stuck state besides the held mutex).
 func blockedInSend() bool {
 	buf := make([]byte, 1<<20)
 	n := runtime.Stack(buf, true)
 	for _, g := range strings.Split(string(buf[:n]), "\n\n") {
-		if strings.Contains(g, "[chan send") &&
+		if (strings.Contains(g, "[chan send") || strings.Contains(g, "[select")) &&
 			(strings.Contains(g, ").RunAfter(") || strings.Contains(g, ").RunEvery(") ||
 				strings.Contains(g, ").Cancel(") || strings.Contains(g, ").schedule(")) {
 			return true
@@ -462,6 +466,227 @@ func parkedShutdown(impl int64) Sx {
 	return Ints(parked, 1, ret, 0, 0, 0, 0)
 }
 
+// ShutdownCase: the worker's fourth input.  The REAL worker goroutine; Shutdown() is called
+//
+//	variant 0: on a quiet scheduler with a few timers pending;
+//	variant 1: while four client goroutines keep calling RunAfter / RunEvery / Cancel /
+//	           Size / IsScheduled;
+//	variant 2: while the worker is parked on its output (Chan() full, nobody reading) and
+//	           callers of RunAfter sit in the send on the full start-request channel;
+//	variant 3: the same with callers of Cancel on the full cancel-request channel.
+//
+// Afterwards every id ever handed out (and the ids of two further RunAfter / RunEvery
+// calls made after Shutdown returned) is queried and cancelled.  Observation:
+// (panics stuck sizeBad cancelBad shutdownReturned): panics = API calls that panicked,
+// stuck = 1 if a call did not come back within 5 s after Shutdown had returned (callers
+// blocked in a send whose receiver is gone, or the mutex left locked by a panic),
+// sizeBad = 1 if Size() differs from the number of ids IsScheduled() reports,
+// cancelBad = number of ids whose Cancel() answer differs from IsScheduled() just before.
+func ShutdownCase(impl int64, variant int64) Sx {
+	sched.VerifNow = nil
+	var t sched.Timer
+	if impl == ImplShutWheel {
+		t = sched.NewHHWheelTimer(time.Millisecond, time.Millisecond)
+	} else {
+		t = sched.NewTimerQueue(time.Millisecond, time.Millisecond)
+	}
+	t.Start()
+	ch := t.Chan()
+	var panics, stuck int64
+	var mu sync.Mutex
+	var ids []int
+	note := func(id int) { mu.Lock(); ids = append(ids, id); mu.Unlock() }
+	// safe runs one API call; a panic is counted, not propagated
+	safe := func(f func()) {
+		defer func() {
+			if r := recover(); r != nil {
+				atomic.AddInt64(&panics, 1)
+			}
+		}()
+		f()
+	}
+	stop := make(chan struct{})
+	var clients sync.WaitGroup
+	var inCall, calls int64 // clients inside an API call / calls completed
+	client := func(f func(i int)) {
+		clients.Add(1)
+		go func() {
+			defer clients.Done()
+			for i := 0; ; i++ {
+				select {
+				case <-stop:
+					return
+				default:
+				}
+				atomic.AddInt64(&inCall, 1)
+				safe(func() { f(i) })
+				atomic.AddInt64(&inCall, -1)
+				atomic.AddInt64(&calls, 1)
+				atomic.AddInt64(&progress, 1)
+			}
+		}()
+	}
+	// every one of the 40 clients sits in a call, none has returned for 30 ms, Chan() is
+	// full and the goroutine dump shows a caller in a channel send.  (40 callers: when the
+	// worker leaves at Shutdown its select may still take a few requests before it sees
+	// the done channel, which would let a single blocked caller go.)
+	const blockedClients = 40
+	waitParked := func() {
+		last, since := int64(-1), time.Now()
+		for end := time.Now().Add(10 * time.Second); time.Now().Before(end); {
+			if c := atomic.LoadInt64(&calls); c != last {
+				last, since = c, time.Now()
+			}
+			if time.Since(since) > 30*time.Millisecond && atomic.LoadInt64(&inCall) == blockedClients &&
+				len(ch) == cap(ch) && blockedInSend() {
+				return
+			}
+			time.Sleep(time.Millisecond)
+		}
+	}
+	switch variant {
+	case 0:
+		for i := 0; i < 6; i++ {
+			if i%3 == 2 {
+				note(t.RunEvery(100000+i, &Job{Ord: int64(i + 1)}))
+			} else {
+				note(t.RunAfter(100000+i, &Job{Ord: int64(i + 1)}))
+			}
+		}
+		time.Sleep(5 * time.Millisecond)
+	case 1:
+		var last int64
+		client(func(i int) {
+			id := t.RunAfter(100000+i%7, &Job{Ord: 1})
+			atomic.StoreInt64(&last, int64(id))
+			note(id)
+			time.Sleep(50 * time.Microsecond)
+		})
+		client(func(i int) { note(t.RunEvery(100000, &Job{Ord: 2})); time.Sleep(70 * time.Microsecond) })
+		client(func(i int) { t.Cancel(int(atomic.LoadInt64(&last)) - i%3); time.Sleep(60 * time.Microsecond) })
+		client(func(i int) { t.Size(); t.IsScheduled(int(atomic.LoadInt64(&last))) })
+		time.Sleep(20 * time.Millisecond)
+	case 2:
+		// due timers are started until the caller blocks: Chan() fills, the worker parks
+		// in the hand-over, the start-request channel fills behind it
+		n := 20000
+		var k int64
+		for c := 0; c < blockedClients; c++ {
+			client(func(i int) {
+				if atomic.AddInt64(&k, 1) > int64(n) {
+					time.Sleep(time.Millisecond)
+					return
+				}
+				note(t.RunAfter(0, &Job{Ord: 3}))
+			})
+		}
+		waitParked()
+	default:
+		var long []int
+		for i := 0; i < sched.PendingQueueCapacity+blockedClients; i++ {
+			id := t.RunAfter(1000000+i, &Job{Ord: 4})
+			long = append(long, id)
+			note(id)
+			if i%64 == 63 {
+				time.Sleep(3 * time.Millisecond) // the worker accepts them
+			}
+		}
+		time.Sleep(10 * time.Millisecond)
+		for i := 0; i < cap(ch)+20; i++ { // park the worker on its output
+			note(t.RunAfter(0, &Job{Ord: 5}))
+		}
+		for end := time.Now().Add(10 * time.Second); time.Now().Before(end) && len(ch) < cap(ch); {
+			time.Sleep(time.Millisecond)
+		}
+		time.Sleep(20 * time.Millisecond)
+		var k int64
+		for c := 0; c < blockedClients; c++ {
+			client(func(i int) {
+				j := int(atomic.AddInt64(&k, 1)) - 1
+				if j >= len(long) {
+					time.Sleep(time.Millisecond)
+					return
+				}
+				t.Cancel(long[j])
+			})
+		}
+		waitParked()
+	}
+	_, ok := guarded(func() int64 { safe(t.Shutdown); return 0 })
+	ret := int64(1)
+	if !ok {
+		ret = 0
+	}
+	time.Sleep(5 * time.Millisecond) // the clients go on for a moment after Shutdown
+	close(stop)
+	cdone := make(chan struct{})
+	go func() { clients.Wait(); close(cdone) }()
+	select {
+	case <-cdone:
+	case <-time.After(5 * time.Second):
+		stuck = 1
+	}
+	// calls after Shutdown
+	call := func(f func() int64) int64 {
+		if stuck == 1 {
+			return 0
+		}
+		v, ok := guarded(func() (v int64) { safe(func() { v = f() }); return })
+		if !ok {
+			stuck = 1
+		}
+		return v
+	}
+	for i := 0; i < 3; i++ {
+		note(int(call(func() int64 { return int64(t.RunAfter(i, &Job{Ord: 6})) })))
+		note(int(call(func() int64 { return int64(t.RunEvery(i+1, &Job{Ord: 7})) })))
+	}
+	func() { // Start after Shutdown panics on purpose ("invalid worker state"): not counted
+		defer func() { recover() }()
+		t.Start()
+	}()
+	b2i := func(b bool) int64 {
+		if b {
+			return 1
+		}
+		return 0
+	}
+	mu.Lock()
+	all := append([]int(nil), ids...)
+	mu.Unlock()
+	seen := map[int]bool{}
+	var nSched, sizeBad, cancelBad int64
+	size := call(func() int64 { return int64(t.Size()) })
+	var uniq []int
+	for _, id := range all {
+		if !seen[id] {
+			seen[id] = true
+			uniq = append(uniq, id)
+		}
+	}
+	for _, id := range uniq {
+		id := id
+		nSched += call(func() int64 { return b2i(t.IsScheduled(id)) })
+	}
+	if size != nSched {
+		sizeBad = 1
+	}
+	for _, id := range uniq {
+		id := id
+		s := call(func() int64 { return b2i(t.IsScheduled(id)) })
+		c := call(func() int64 { return b2i(t.Cancel(id)) })
+		if s != c {
+			cancelBad++
+		}
+		if call(func() int64 { return b2i(t.IsScheduled(id)) }) != 0 {
+			cancelBad++
+		}
+		atomic.AddInt64(&progress, 1)
+	}
+	call(func() int64 { t.Shutdown(); return 0 }) // a second Shutdown is a no-op
+	return Ints(atomic.LoadInt64(&panics), stuck, sizeBad, cancelBad, ret)
+}
+
 // insideTick reports whether some goroutine is inside the worker's tick code (tick /
 // expireNear) and waiting there: in a channel send, a select or a sleep.
 func insideTick() bool {
@@ -615,149 +840,198 @@ func Run(in Sx) Sx {
 	if impl == ImplParkWheel || impl == ImplParkHeap {
 		return ParkedOnOutput(impl, in.At(1).Int64())
 	}
+	if impl == ImplShutWheel || impl == ImplShutHeap {
+		return ShutdownCase(impl, in.At(1).Int64())
+	}
+	r := newStepper(in)
+	for r.step() {
+	}
+	return ListOf(r.obs)
+}
+
+// stepper executes a history one op at a time (so that several schedulers can be driven
+// in turn from one goroutine, see RunInterleaved).
+type stepper struct {
+	x      *exec
+	impl   int64
+	ops    Sx
+	i      int
+	jumpAt int
+	jumpTo int64
+	obs    []Sx
+}
+
+func newStepper(in Sx) *stepper {
+	impl := in.At(0).Int64()
 	x := &exec{d: NewDriver(impl, in.At(1).Uint64(), in.At(2).Int64())}
 	x.tm = x.d.Timer()
-	ops := in.At(3)
-	jumpAt, jumpTo := -1, int64(0)
+	r := &stepper{x: x, impl: impl, ops: in.At(3), jumpAt: -1}
 	if in.Len() >= 6 {
-		jumpAt, jumpTo = int(in.At(4).Int64()), in.At(5).Int64()
+		r.jumpAt, r.jumpTo = int(in.At(4).Int64()), in.At(5).Int64()
 	}
-	var obs []Sx
+	return r
+}
+
+// step executes the next op; false: the history is over (or the implementation stopped).
+func (r *stepper) step() bool {
+	if r.i >= r.ops.Len() {
+		return false
+	}
+	x, impl, i := r.x, r.impl, r.i
+	r.i++
 	const capQ = sched.PendingQueueCapacity
-loop:
-	for i := 0; i < ops.Len(); i++ {
-		atomic.AddInt64(&progress, 1)
-		if i == jumpAt {
-			x.d.SetNextID(int(jumpTo))
+	atomic.AddInt64(&progress, 1)
+	if i == r.jumpAt {
+		x.d.SetNextID(int(r.jumpTo))
+	}
+	op := r.ops.At(i)
+	switch op.At(0).Int64() {
+	case OpStart, OpEvery:
+		arg := int(op.At(1).Int64())
+		x.ord++
+		job := &Job{Ord: x.ord}
+		every := op.At(0).Int64() == OpEvery
+		code, v, pc := x.call(x.d.PendingAdd()+len(x.blockedAdd) >= capQ, 1, func() int64 {
+			if every {
+				return int64(x.tm.RunEvery(arg, job))
+			}
+			return int64(x.tm.RunAfter(arg, job))
+		})
+		r.obs = append(r.obs, Ints(code, v))
+		if code == 0 {
+			job.Ord = v // deliveries are reported by the id the scheduler handed out
 		}
-		op := ops.At(i)
-		switch op.At(0).Int64() {
-		case OpStart, OpEvery:
-			arg := int(op.At(1).Int64())
-			x.ord++
-			job := &Job{Ord: x.ord}
-			every := op.At(0).Int64() == OpEvery
-			code, v, pc := x.call(x.d.PendingAdd()+len(x.blockedAdd) >= capQ, 1, func() int64 {
-				if every {
-					return int64(x.tm.RunEvery(arg, job))
-				}
-				return int64(x.tm.RunAfter(arg, job))
-			})
-			obs = append(obs, Ints(code, v))
-			if code == 0 {
-				job.Ord = v // deliveries are reported by the id the scheduler handed out
+		if code == 1 {
+			pc.job = job
+			x.blockedAdd = append(x.blockedAdd, pc)
+		}
+		if code >= 2 {
+			return false
+		}
+	case OpCancel:
+		id := int(op.At(1).Int64())
+		// (whether the id is scheduled is the implementation's business: the call is
+		// made on a separate goroutine whenever the channel is full)
+		mayBlock := x.d.PendingDel()+len(x.blockedDel) >= capQ
+		code, v, pc := x.call(mayBlock, -1, func() int64 {
+			if x.tm.Cancel(id) {
+				return 1
 			}
-			if code == 1 {
-				pc.job = job
-				x.blockedAdd = append(x.blockedAdd, pc)
+			return 0
+		})
+		r.obs = append(r.obs, Ints(code, v))
+		if code == 1 {
+			x.blockedDel = append(x.blockedDel, pc)
+		}
+		if code >= 2 {
+			return false
+		}
+	case OpSize, OpIsSched:
+		// guarded: a mutex that was left locked would hang the query for good
+		isSize := op.At(0).Int64() == OpSize
+		v, ok := guarded(func() int64 {
+			if isSize {
+				return int64(x.tm.Size())
 			}
-			if code >= 2 {
-				break loop
+			if x.tm.IsScheduled(int(op.At(1).Int64())) {
+				return 1
 			}
-		case OpCancel:
-			id := int(op.At(1).Int64())
-			// (whether the id is scheduled is the implementation's business: the call is
-			// made on a separate goroutine whenever the channel is full)
-			mayBlock := x.d.PendingDel()+len(x.blockedDel) >= capQ
-			code, v, pc := x.call(mayBlock, -1, func() int64 {
-				if x.tm.Cancel(id) {
-					return 1
-				}
-				return 0
-			})
-			obs = append(obs, Ints(code, v))
-			if code == 1 {
-				x.blockedDel = append(x.blockedDel, pc)
+			return 0
+		})
+		if !ok {
+			r.obs = append(r.obs, Ints(2, 0)) // never returned: blocked on the scheduler's mutex
+			return false
+		}
+		r.obs = append(r.obs, Ints(v))
+	case OpHandleAdd, OpHandleDel:
+		add := op.At(0).Int64() == OpHandleAdd
+		var handled bool
+		panicked, _ := Catch(func() {
+			if add {
+				handled = x.d.HandleAdd()
+			} else {
+				handled = x.d.HandleDel()
 			}
-			if code >= 2 {
-				break loop
+		})
+		switch {
+		case panicked:
+			r.obs = append(r.obs, Ints(2))
+			return false
+		case x.leaked():
+			r.obs = append(r.obs, Ints(5)) // the arm returned with the mutex still locked
+			return false
+		case handled:
+			r.obs = append(r.obs, Ints(1))
+			if add {
+				x.release(&x.blockedAdd)
+			} else {
+				x.release(&x.blockedDel)
 			}
-		case OpSize, OpIsSched:
-			// guarded: a mutex that was left locked would hang the query for good
-			isSize := op.At(0).Int64() == OpSize
-			v, ok := guarded(func() int64 {
-				if isSize {
-					return int64(x.tm.Size())
-				}
-				if x.tm.IsScheduled(int(op.At(1).Int64())) {
-					return 1
-				}
-				return 0
-			})
-			if !ok {
-				obs = append(obs, Ints(2, 0)) // never returned: blocked on the scheduler's mutex
-				break loop
-			}
-			obs = append(obs, Ints(v))
-		case OpHandleAdd, OpHandleDel:
-			add := op.At(0).Int64() == OpHandleAdd
-			var handled bool
-			panicked, _ := Catch(func() {
-				if add {
-					handled = x.d.HandleAdd()
-				} else {
-					handled = x.d.HandleDel()
-				}
-			})
-			switch {
-			case panicked:
-				obs = append(obs, Ints(2))
-				break loop
-			case x.leaked():
-				obs = append(obs, Ints(5)) // the arm returned with the mutex still locked
-				break loop
-			case handled:
-				obs = append(obs, Ints(1))
-				if add {
-					x.release(&x.blockedAdd)
-				} else {
-					x.release(&x.blockedDel)
-				}
-			default:
-				obs = append(obs, Ints(0))
-			}
-		case OpPass:
-			n := op.At(1).Int64() // negative: the clock reading goes backwards
-			x.d.Pass(n)
-			x.behind += n
-			obs = append(obs, List())
-		case OpTick:
-			if impl == ImplWheel && x.behind > MaxTicksPerStep {
-				obs = append(obs, Ints(3))
-				break loop
-			}
-			limit := 3 * time.Second
-			if x.behind > 0 {
-				limit += time.Duration(x.behind>>20) * 200 * time.Millisecond
-			}
-			x.behind = 0
-			panicked, stalled, ords := TickDrainLimit(x.d, limit)
-			l := []Sx{Int(0)}
-			if panicked {
-				l[0] = Int(2)
-			}
-			if stalled {
-				l[0] = Int(4) // the ticker arm never returned
-			}
-			leakedLock := false
-			if !panicked && !stalled && x.leaked() {
-				l[0] = Int(5) // the ticker arm returned with the mutex still locked
-				leakedLock = true
-			}
-			for _, o := range ords {
-				l = append(l, Int(o))
-			}
-			obs = append(obs, ListOf(l))
-			if panicked || stalled || leakedLock {
-				break loop
-			}
-		case OpProbe:
-			obs = append(obs, probeSx(impl, x.d))
 		default:
-			break loop
+			r.obs = append(r.obs, Ints(0))
+		}
+	case OpPass:
+		n := op.At(1).Int64() // negative: the clock reading goes backwards
+		x.d.Pass(n)
+		x.behind += n
+		r.obs = append(r.obs, List())
+	case OpTick:
+		if impl == ImplWheel && x.behind > MaxTicksPerStep {
+			r.obs = append(r.obs, Ints(3))
+			return false
+		}
+		limit := 3 * time.Second
+		if x.behind > 0 {
+			limit += time.Duration(x.behind>>20) * 200 * time.Millisecond
+		}
+		x.behind = 0
+		panicked, stalled, ords := TickDrainLimit(x.d, limit)
+		l := []Sx{Int(0)}
+		if panicked {
+			l[0] = Int(2)
+		}
+		if stalled {
+			l[0] = Int(4) // the ticker arm never returned
+		}
+		leakedLock := false
+		if !panicked && !stalled && x.leaked() {
+			l[0] = Int(5) // the ticker arm returned with the mutex still locked
+			leakedLock = true
+		}
+		for _, o := range ords {
+			l = append(l, Int(o))
+		}
+		r.obs = append(r.obs, ListOf(l))
+		if panicked || stalled || leakedLock {
+			return false
+		}
+	case OpProbe:
+		r.obs = append(r.obs, probeSx(impl, x.d))
+	default:
+		return false
+	}
+	return true
+}
+
+// RunInterleaved drives the schedulers of two histories in turn from one goroutine: `turns`
+// gives how many ops of A, then of B, then of A ... are executed (cyclically); each
+// scheduler must behave exactly as if it were alone (no state shared between scheduler
+// objects).  Returns the two observation lists.  (At most one of the two may be a heap:
+// the heap driver's virtual clock is a package-level hook.)
+func RunInterleaved(inA, inB Sx, turns []int) (Sx, Sx) {
+	a, b := newStepper(inA), newStepper(inB)
+	liveA, liveB := true, true
+	for k := 0; liveA || liveB; k++ {
+		n := turns[k%len(turns)]
+		cur, live := a, &liveA
+		if k%2 == 1 {
+			cur, live = b, &liveB
+		}
+		for j := 0; j < n && *live; j++ {
+			*live = cur.step()
 		}
 	}
-	return ListOf(obs)
+	return ListOf(a.obs), ListOf(b.obs)
 }
 
 // ---------------------------------------------------------------------------------------
